@@ -391,6 +391,13 @@ func observeDicts(seg segment.Segment, pr *Probes, o *Obs) error {
 					return
 				}
 				o.Posts = append(o.Posts, OPost{F: B(f), T: B(t), N: n, Hits: hits, Pre: true})
+				// ... and once more through the reused objects, reading the first hit only: an iterator that is
+				// abandoned half way must leave nothing behind for the next probe (nothing is recorded here)
+				if pl2, e := d.PostingsList([]byte(t), nil, prePL); e == nil {
+					prePL = pl2
+					preIt = prePL.Iterator(true, true, true, preIt)
+					preIt.Next()
+				}
 			}()
 		}
 		o.Dicts = append(o.Dicts, od)
@@ -592,6 +599,13 @@ func observeThes(seg segment.Segment, pr *Probes, o *Obs) error {
 						os.R = append(os.R, OSynPair{S: B(s.Term()), D: int(s.Number())})
 					}
 					ot.Syns = append(ot.Syns, os)
+				}
+				// ... and once more through the reused objects, reading the first pair only: a list that is
+				// abandoned half way must leave nothing behind for the next probe (nothing is recorded here)
+				if sl2, e := th.SynonymsList([]byte(t), nil, preSL); e == nil { // without exclusions: the longest list
+					preSL = sl2
+					preSI = sl2.Iterator(preSI)
+					preSI.Next()
 				}
 			}
 		}
